@@ -1022,6 +1022,9 @@ func genC14(tier string, seed uint64, n int, e *Emitter) {
 	e.Emit(Case{Group: "keys", Desc: "visitor.QueryDocumentKeys and the node-valued fields of the ast structs (reflection) against coq/theories/Gen/VisitorKeys.v",
 		Coq: fmt.Sprintf("KeysCase %s %s", tb.coqKeys(), tb.coqShape()), NT: true, Tags: []string{"keys"}})
 
+	// type tracking (harness/c14ti.go)
+	genC14TypeInfo(tier, seed, n/4, tb, e)
+
 	corpus := c14Corpus()
 	idx := uint64(0)
 	// corpus: every document under a few policies, all forms, parallel, and the root-skip probe
